@@ -6,6 +6,7 @@ import (
 	"fmt"
 	"go/token"
 	"go/types"
+	"sort"
 	"strings"
 
 	"golang.org/x/tools/go/ssa"
@@ -1037,6 +1038,13 @@ func (ck *Check) nodeListImmutability(rule string) {
 					return "result of " + calleeName(c)
 				}
 			}
+			if ta, ok := x.Tuple.(*ssa.TypeAssert); ok {
+				return sharedObj(ta.X, seen)
+			}
+		case *ssa.TypeAssert:
+			return sharedObj(x.X, seen)
+		case *ssa.MakeInterface:
+			return sharedObj(x.X, seen)
 		case *ssa.Call:
 			if f := x.Common().StaticCallee(); f != nil && ck.P.inRepo(f) {
 				return "result of " + calleeName(x)
@@ -1047,7 +1055,11 @@ func (ck *Check) nodeListImmutability(rule string) {
 		return ""
 	}
 	objStores := 0
-	for _, fn := range fns {
+	// every shipped function, not only the scan body: informer callbacks / transforms and start-up
+	// code see the same shared objects before the scan does
+	allFns := append([]*ssa.Function{}, ck.P.Funcs...)
+	sort.Slice(allFns, func(i, j int) bool { return funcID(allFns[i]) < funcID(allFns[j]) })
+	for _, fn := range allFns {
 		ord := 0
 		for _, b := range fn.Blocks {
 			for _, in := range b.Instrs {
